@@ -251,6 +251,29 @@ impl<'r> Gen<'r> {
             self.ev(format!("poll t={} b=-", self.t));
         }
     }
+    /// data in flight, a partial ACK that closes the window (probe timer armed with octets still
+    /// unacknowledged), [a probe, possibly refused], then the window reopens
+    fn zero_window_reopen(&mut self) {
+        let n = *self.rng.pick(&[600usize, 1500, 3000]);
+        self.ev(format!("send {}", n));
+        self.ev(format!("poll t={} b=-", self.t));
+        if let (Some(nxt), Some(una)) = (self.s_nxt, self.last_ack_sent.or(self.s_iss.map(|i| wadd(i, 1)))) {
+            let span = sdiff(nxt, una);
+            if span > 2 {
+                let a = wadd(una, self.rng.range(1, span - 1));
+                let seq = self.p_seq(self.p_off);
+                self.seg(seq, Some(a), "", 0, 0, "0".into(), Gen::plain_opts());
+                self.p_win = 0;
+                if self.rng.chance(1, 2) {
+                    self.poll_refused(true);
+                }
+                let w = *self.rng.pick(&[1u16, 536, 65535]);
+                self.p_win = w;
+                self.seg(seq, Some(a), "", w, 0, "0".into(), Gen::plain_opts());
+                self.poll();
+            }
+        }
+    }
     /// data in flight, a fresh ACK of part of it, then duplicate ACKs: fast retransmit (often into a busy device)
     fn dup_ack_burst(&mut self) {
         let n = *self.rng.pick(&[600usize, 1500, 3000, 5000]);
@@ -554,7 +577,8 @@ impl<'r> Gen<'r> {
                     self.poll_refused(true); // zero-window probe into a busy device
                 }
             }
-            63..=64 => self.dup_ack_burst(),
+            63 => self.dup_ack_burst(),
+            64 => self.zero_window_reopen(),
             65..=68 => {
                 // duplicate ACKs
                 if let Some(a) = self.last_ack_sent {
